@@ -40,6 +40,15 @@ def make_trace(prop, seed, index, tier):
 
 
 def _run_trace_here(prop, trace):
+    env = (trace.get("config") or {}).get("import_env")
+    if env and not os.environ.get("XSIM_IN_FRESH_IMPORT"):
+        # this run asks for the code under test to be imported again under a modified environment
+        def again():
+            os.environ["XSIM_IN_FRESH_IMPORT"] = "1"
+            return _run_trace_here(prop, trace)
+        res = core.fresh_import_run(env, again)
+        res.setdefault("counters", {})["config.fresh_import_under_env"] = 1
+        return res
     eng = engine_for(prop)
     if hasattr(eng, "execute_for"):
         return eng.execute_for(prop, trace)
@@ -307,10 +316,19 @@ def check(prop, tier, runs=None, workers=None, start=0, evidence=True):
     pre = eng.precheck(prop, seed, tier) if hasattr(eng, "precheck") else {"lines": [], "viols": [], "info": {}}
     indices = eng.indices(prop, tier, runs, start) if hasattr(eng, "indices") else range(start, start + runs)
     indices = list(indices)
-    sample_idx = indices[:: max(1, len(indices) // 24)][:24]
+    if getattr(eng, "ISOLATE_RUNS", False):
+        sample_idx = indices[:: max(1, len(indices) // 24)][:24]
+    else:
+        # runs of one chunk share a process, so benign process-lifetime state of the code under test (lazy
+        # initialisation, warm caches) may legitimately make a run depend on its predecessors in the chunk: the
+        # determinism probes therefore re-execute WHOLE chunks (the first and a middle one), like with like
+        size = CHUNK_SIZE.get(prop, 100)
+        nch = (len(indices) + size - 1) // size
+        picks = sorted(set([0, nch // 2]))
+        sample_idx = [i for c in picks for i in indices[c * size:(c + 1) * size]]
     merged = run_many(prop, seed, tier, indices, workers, want_eds=sample_idx)
     # determinism self-test on a small sample, every run: same index twice in this process
-    again = run_many(prop, seed, tier, sample_idx, 1)
+    again = run_many(prop, seed, tier, sample_idx, 1, want_eds=sample_idx)
     first = merged["eds"]
     nondet = [i for i in sample_idx if again["eds"].get(i) != first.get(i)]
     if nondet and not merged["viols"]:
